@@ -2,7 +2,8 @@ package main
 
 // Bounded-exhaustive enumeration of the abstract rule space of m.room.member events (C07), each abstract
 // scenario RENDERED to real events with RoomGen.Mk and run through `auth.allowed`; plus the named witnesses of
-// VProps/C07.lean (one per departure D1–D15 of DESIGN.md §6.1 and per candidate U1–U7).
+// VProps/C07.lean (one per departure D1–D17 of DESIGN.md §6.1, D7 excepted, and the five inputs F1–F5 that failed before
+// the repairs 6fda2cc, 17893e1, 81e30aa, ba68227, c0fa8cc).
 //
 // Dimensions: version x (sender = target?) x sender's membership x target's previous membership x new membership
 // x join rule (7 values incl. absent / unknown) x relation of the sender's level to the threshold (<,=,>) x relation of the
@@ -284,35 +285,35 @@ func authWitnesses() []asWitness {
 			c := mkCreate(g, nil)
 			return g.Mk(spec.MRoomPowerLevels, cr, sp(""), map[string]interface{}{"ban": "50"}, prev, nil, nil), []*Ev{c, memberEv(g, cr, "join")}
 		}},
-		{"U1", "10", false, func(g *RoomGen) (*Ev, []*Ev) {
+		{"D16", "10", false, func(g *RoomGen) (*Ev, []*Ev) {
 			c := mkCreate(g, nil)
 			jr := g.Mk(spec.MRoomJoinRules, cr, sp(""), map[string]interface{}{"join_rule": "private"}, nil, nil, nil)
 			inv := g.Mk(spec.MRoomMember, cr, sp("@a:hs1"), map[string]interface{}{"membership": "invite"}, nil, nil, nil)
 			return g.Mk(spec.MRoomMember, "@a:hs1", sp("@a:hs1"), map[string]interface{}{"membership": "join"}, prev, nil, nil), []*Ev{c, jr, inv}
 		}},
-		{"U2", "10", false, func(g *RoomGen) (*Ev, []*Ev) {
+		{"F1", "10", false, func(g *RoomGen) (*Ev, []*Ev) {
 			c := mkCreate(g, nil)
 			jr := g.Mk(spec.MRoomJoinRules, cr, sp(""), map[string]interface{}{"join_rule": "public"}, nil, nil, nil)
 			return g.Mk(spec.MRoomMember, "@a:hs1", sp("@a:hs1"), map[string]interface{}{"membership": "join"}, prev, nil, nil),
 				[]*Ev{c, jr, memberEv(g, "@a:hs1", "knock")}
 		}},
-		{"U3", "10", false, func(g *RoomGen) (*Ev, []*Ev) {
+		{"F2", "10", false, func(g *RoomGen) (*Ev, []*Ev) {
 			c := mkCreate(g, nil)
 			return g.Mk(spec.MRoomThirdPartyInvite, cr, sp("@o:hs1"), map[string]interface{}{}, prev, nil, nil), []*Ev{c, memberEv(g, cr, "join")}
 		}},
-		{"U4", "10", false, func(g *RoomGen) (*Ev, []*Ev) {
+		{"D17", "10", false, func(g *RoomGen) (*Ev, []*Ev) {
 			c := mkCreate(g, nil)
 			return g.Mk(spec.MRoomRedaction, cr, nil, map[string]interface{}{}, prev, nil, nil), []*Ev{c, memberEv(g, cr, "join")}
 		}},
-		{"U5", "11", false, func(g *RoomGen) (*Ev, []*Ev) {
+		{"F3", "11", false, func(g *RoomGen) (*Ev, []*Ev) {
 			return g.Mk(spec.MRoomCreate, cr, sp(""), map[string]interface{}{"room_version": "99"}, nil, nil, nil), nil
 		}},
-		{"U6", "10", false, func(g *RoomGen) (*Ev, []*Ev) {
+		{"F4", "10", false, func(g *RoomGen) (*Ev, []*Ev) {
 			c := mkCreate(g, nil)
 			jr := g.Mk(spec.MRoomJoinRules, cr, sp(""), map[string]interface{}{"join_rule": "public"}, nil, nil, nil)
 			return g.Mk(spec.MRoomMember, "@a:hs1", sp("@a:hs1"), map[string]interface{}{"membership": "join", "third_party_invite": map[string]interface{}{}}, prev, nil, nil), []*Ev{c, jr}
 		}},
-		{"U7", "10", false, func(g *RoomGen) (*Ev, []*Ev) {
+		{"F5", "10", false, func(g *RoomGen) (*Ev, []*Ev) {
 			c := mkCreate(g, map[string]interface{}{"creator": cr, "m.federate": false})
 			jr := g.Mk(spec.MRoomJoinRules, cr, sp(""), map[string]interface{}{"join_rule": "public"}, nil, nil, nil)
 			return g.Mk(spec.MRoomMember, "@a:hs2", sp("@a:hs2"), map[string]interface{}{"membership": "join",
